@@ -152,10 +152,13 @@ def install():
     for i, f in enumerate(list(H.DOM_HEURISTIC_FCTS)):
         H.DOM_HEURISTIC_FCTS[i] = wrap_dom(i, f, "search")
     hub.wrap_var, hub.wrap_dom = wrap_var, wrap_dom
-    sca.min_value_dom_heuristic = wrap_dom(H.DOM_HEURISTIC_MIN_VALUE, sca.min_value_dom_heuristic, "shaving")
-    sca.max_value_dom_heuristic = wrap_dom(H.DOM_HEURISTIC_MAX_VALUE, sca.max_value_dom_heuristic, "shaving")
-    sca.first_not_instantiated_var_heuristic = wrap_var(
-        H.VAR_HEURISTIC_FIRST_NOT_INSTANTIATED, sca.first_not_instantiated_var_heuristic, "shaving")
+    if hasattr(sca, "min_value_dom_heuristic"):
+        sca.min_value_dom_heuristic = wrap_dom(H.DOM_HEURISTIC_MIN_VALUE, sca.min_value_dom_heuristic, "shaving")
+    if hasattr(sca, "max_value_dom_heuristic"):
+        sca.max_value_dom_heuristic = wrap_dom(H.DOM_HEURISTIC_MAX_VALUE, sca.max_value_dom_heuristic, "shaving")
+    if hasattr(sca, "first_not_instantiated_var_heuristic"):
+        sca.first_not_instantiated_var_heuristic = wrap_var(
+            H.VAR_HEURISTIC_FIRST_NOT_INSTANTIATED, sca.first_not_instantiated_var_heuristic, "shaving")
 
     # ---- choice points
     orig_put = hmin.cp_put
@@ -181,10 +184,17 @@ def install():
         w.__wrapped__ = f
         return w
 
-    bs.backtrack = wrap_bt(bs.backtrack, "search")
-    sca.backtrack = wrap_bt(sca.backtrack, "shaving")
+    # by-name callees are rebound only where the module under test still has them (a refactoring may inline one)
+    if hasattr(bs, "backtrack"):
+        bs.backtrack = wrap_bt(bs.backtrack, "search")
+    if hasattr(sca, "backtrack"):
+        sca.backtrack = wrap_bt(sca.backtrack, "shaving")
+    hub.missing_hooks = [n for m, n in ((bs, "backtrack"), (sca, "backtrack"), (sca, "shave_bound"),
+                                        (sca, "min_value_dom_heuristic"), (sca, "max_value_dom_heuristic"),
+                                        (sca, "first_not_instantiated_var_heuristic"), (bs, "solve_one"), (bs, "reset"),
+                                        (bs, "decrease_max"), (bs, "increase_min")) if not hasattr(m, n)]
 
-    orig_shave = sca.shave_bound
+    orig_shave = getattr(sca, "shave_bound", None)
 
     def shave_bound(bound, dom_idx, *args):
         if "shave_enter" in hub.subs:
@@ -194,7 +204,8 @@ def install():
             hub.emit("shave_exit", bound, dom_idx, args, r)
         return r
 
-    sca.shave_bound = shave_bound
+    if orig_shave is not None:
+        sca.shave_bound = shave_bound
 
     # ---- solver level
     orig_solve_one = bs.solve_one
